@@ -292,6 +292,35 @@ std::string body_C06(Ctx& c, CaseIn& in) {
       }
     }
   }
+  // The statement speaks of REMAINING capacity: the same sweep on a writer that already holds one copy of
+  // the value (capacity = bytes of the first copy + cap).
+  if (!t.has_handle) {
+    const size_t W = full.bytes.size();
+    std::vector<size_t> caps2;
+    if (G <= 16) for (size_t cap = 0; cap <= G + 1; cap++) caps2.push_back(cap);
+    else { caps2 = {0, 1, G / 2, G - 1, G, G + 1}; for (int i = 0; i < 4; i++) caps2.push_back((size_t)tp.below(G)); }
+    for (int k : kinds) {
+      if (k == W_Log || k == W_BLog) continue;
+      for (size_t cap : caps2) {
+        for (int mode = 0; mode < (wk_bounded(k) ? 2 : 1); mode++) {
+          WriterBox w; w.open(k, mode == 0 ? W + cap : W + G + 8, mode == 0 ? SIZE_MAX : W + cap);
+          int s1 = o->write(w);
+          c.rep.evaluations++;
+          if (s1 != 0 || w.position() != W) return fmt("no-space: first of two writes into %s with %zu >= GetSize=%zu bytes failed: %s", wk_name(k), W + cap, G, err_name(s1));
+          int s2 = o->write(w);
+          if (cap >= G) {
+            if (s2 != 0) return fmt("no-space: %s holding %zu bytes with %zu >= GetSize=%zu bytes remaining (%s) failed: %s", wk_name(k), W, cap, G, mode ? "limit" : "capacity", err_name(s2));
+            Bytes twice = full.bytes; twice.insert(twice.end(), full.bytes.begin(), full.bytes.end());
+            if (w.bytes() != twice) return fmt("bytes-differ: second write into %s with %zu bytes remaining wrote different bytes", wk_name(k), cap);
+          } else {
+            if (s2 != E_WriteLimitReached) return fmt("overrun-status: %s holding %zu bytes with %zu < GetSize=%zu bytes remaining (%s) returned %s", wk_name(k), W, cap, G, mode ? "limit" : "capacity", err_name(s2));
+            if (w.position() != W) return fmt("partial-write: %s holding %zu bytes with %zu < GetSize=%zu bytes remaining wrote %zu more bytes", wk_name(k), W, cap, G, w.position() - W);
+          }
+        }
+      }
+    }
+    c.rep.label("second-write-into-partly-filled-writer");
+  }
   if (G >= 3 && strictly_between) c.rep.nontriv(case_hash(t, actual));
   if (t.has_handle && full.pushed.size()) c.rep.label("handle-bearing");
   if (G > full.bytes.size()) c.rep.label("getsize-overestimates");
